@@ -9,7 +9,7 @@ LEDGER = [
     "6. usize is 64 bits; arithmetic overflow is an error in both profiles",
     "7. with_capacity/reserve may panic or abort (capacity overflow, OOM): partial correctness",
     "8. Drop, deallocation, mem::forget and unwinding are not modelled",
-    "9. extraction rules R1-R17 preserve meaning (identity check re-derives every function token-for-token on each run); R16 materialises libcore's provided Iterator::for_each as its defining loop, R17 routes size_hint of a caller iterator through an identity wrapper whose result is unconstrained",
+    "9. extraction rules R1-R19 preserve meaning (identity check re-derives every function token-for-token on each run); R16 materialises libcore's provided Iterator::for_each as its defining loop, R17 routes size_hint of a caller iterator through an identity wrapper whose result is unconstrained, R18 beta-reduces closure literals passed to Option::map/or_else in tail position, R19 turns a pattern parameter of a closure into a let",
     "10. Verus, Z3, rustc 1.98.1 are trusted",
     "11. production cfg only: cfg(test)/miri/rayon/serde items are not verified",
 ]
@@ -29,7 +29,7 @@ PROPS = {
  "C01": {"level": "proof", "technique": "Verus function contracts over an abstract two-table state (multiset content, per-table maps) on the real raw layer",
          "claim": "Unbounded proof, per call and hence by induction over histories, that every raw-layer operation (find/get/insert/remove/erase/clear/drain/len/reserve/shrink/grow/carry) has the sequential-map effect on the multiset of stored elements whichever table an element lives in (a lookup that misses consulted the main table AND the old table), that every insertion path stores the element under the hash the map's own builder computes for its key (invariant hashed), that the map/set/entry/raw-entry wrappers preserve all of it, and that no assert!/unreachable!/expect in that code can fire. " + V,
          "note": "trusted: the hashbrown contract model; old-table lookup completeness (FnMut reborrow) and values behind bucket pointers are not decided here",
-         "not_decided": ["old-table lookup completeness: `find` passes `&mut eq` to the first lookup, Verus must assume the FnMut changed", "values written through dereferenced buckets", "raw-entry builder chains, extend/from_iter (iterator adapters)"]},
+         "not_decided": ["old-table lookup completeness is stated with an existentially quantified closure (`find` passes `&mut eq` to the first lookup; Verus cannot relate an FnMut to its later value)", "values written through dereferenced buckets (which value wins for a repeated key, key identity): bounded Kani harnesses only", "the two raw-entry `search` functions and OccupiedEntry::replace_entry_with (assumed contracts)"]},
  "C02": {"level": "proof", "technique": "Verus postconditions: carry moves exactly min(R, remaining), R == 8, growth relocates nothing, insert recursion decreases",
          "claim": "Unbounded proof that a key-adding call relocates at most R = 8 elements (carry.moves_exact, quota_is_eight), that growth parks the old table unchanged (no rehash), that insert grows at most once (decreases), that reserve/try_reserve on a map with no resize pending relocate nothing (either in place, or the old table is parked unchanged), that lookups/removals touch only the addressed bucket (frame clauses), that HashMap::insert carries on an overwrite only when the overwritten element is in the old table, and that the in-place reserve path never calls the hasher (closure `requires false`). " + V,
          "note": "exact hash/allocation counts are not expressible without cost tokens; derived from the relocation bound plus the structure of the call graph (assumption)",
@@ -42,7 +42,7 @@ PROPS = {
          "note": "trusted: hashbrown model (growth_left bookkeeping of insert_no_grow/erase/remove/shrink_to)"},
  "C05": {"level": "proof", "technique": "Verus: every unsafe hashbrown call meets the dependency's precondition; invariant sync (cached iterator == occupied set of the old table)",
          "claim": "Unbounded proof for the raw layer that each unsafe dependency call satisfies the modelled safety precondition (bucket full in that table, room for insert_no_grow, iterator covers the table, reflect_remove before removal) and that the cached iterator agrees exactly with the old table after every operation. " + V,
-         "note": "pointer dereferences in map.rs/set.rs are outside Verus (opaque); known finding: zero-sized elements violate reflect_remove's precondition",
+         "note": "pointer dereferences in map.rs/set.rs are outside Verus (opaque); the zero-sized-element defect found through reflect_remove's precondition is repaired (8aace8e)",
          "not_decided": ["validity in time of references obtained by dereferencing buckets"]},
  "C06": {"level": "proof", "technique": "Verus multiset conservation of stored elements by every raw operation (linear values: moved, never copied)",
          "claim": "Unbounded proof that each raw operation conserves the multiset of stored elements up to exactly the element inserted or handed back (content clauses), which is 'returned or kept, never both'. Indirect: Drop itself is not modelled. " + V,
@@ -54,8 +54,8 @@ PROPS = {
          "not_decided": ["Clone panics inside hashbrown", "double drops during unwinding", "carry refactored to own the old table locally (seed C07-6) ends UNDECIDED"]},
  "C08": {"level": "proof", "technique": "Verus contracts on iter/drain/into_iter_from and on next/size_hint of RawIntoIter/RawDrain/RawIter",
          "claim": "Unbounded proof that iter() covers exactly main + old table (old part = clone of the cached iterator), that drain detaches the old table at once, that into_iter/RawIntoIter/RawDrain yield each remaining element once and are fused, that every size_hint is the exact sum, and that the map- and set-level wrappers (Iter, IterMut, Keys, Values, ValuesMut, IntoIter, Drain and the set versions) are created covering the whole map and count down by exactly one per yielded element. " + V,
-         "note": "RawIter::next is outside Verus' subset (closure capturing &mut): its contract is assumed",
-         "not_decided": ["RawIter::next body", "map/set iterator wrappers (pointer dereference)"]},
+         "note": "RawIter::next is verified on its real body (rule R18 beta-reduces the closure literals of its map/or_else chain); which VALUE a yielded bucket holds is behind a pointer dereference",
+         "not_decided": ["the values handed out by the map/set iterator wrappers (pointer dereference)"]},
  "C09": {"level": "proof", "technique": "Verus contracts on erase/remove as used by retain/drain_filter (structure); values behind pointers undecided",
          "claim": "Unbounded proof of the structural half on the real bodies of retain and DrainFilterInner::next: every invariant kept, only yielded and still-valid buckets erased/removed, result a sub-multiset (retain) / exactly the yielded element removed (drain_filter), the cursor only moves forward (each element visited once), stays valid even after the old table is freed, and the loops terminate. " + V,
          "note": "which elements are kept depends on values read through bucket pointers: not decided by Verus",
@@ -65,8 +65,8 @@ PROPS = {
          "note": "allocation failure/capacity overflow behaviour of hashbrown is modelled (with_capacity returns only for c <= isize::MAX)"},
  "C11": {"level": "proof", "technique": "Verus contracts on clone_with_hasher / clone_from_with_hasher (structure: unsplit result, size)",
          "claim": "Unbounded proof on the real bodies of Clone for HashMap (clone, clone_from) and of the raw functions beneath them (incl. and_carry_with_hasher): the destination's own old table is dropped first, the result is unsplit, well-formed, has the source's element count, and is hashed under the hash builder the map ends up with (a clone of the source's). " + V,
-         "note": "and_carry_with_hasher is assumed (for-loop over a raw iterator); contents equality and independence are not decided by Verus",
-         "not_decided": ["element-wise equality of the clone", "independence of the two maps", "hasher adoption (trait impl)"]},
+         "note": "and_carry_with_hasher, Clone for HashMap and Clone for HashSet are verified on their real bodies (R14/R15); element-wise equality and independence are not decided by Verus (bounded Kani harnesses)",
+         "not_decided": ["element-wise equality of the clone", "independence of the two maps"]},
  "C12": {"level": "proof", "technique": "Verus: insert returns a valid main-table bucket holding the value in the final state; carry leaves main buckets in place; dispatch on in_main",
          "claim": "Unbounded proof that the bucket returned by insert/insert_no_grow designates the new element after growth and after carry (carry.main_stable), that find tags buckets with the right table, that remove/erase/replace_bucket_with act on the bucket's own table, and that every method of Entry/OccupiedEntry/VacantEntry/RawEntryMut/RawOccupiedEntryMut/RawVacantEntryMut requires a handle that designates a live element and returns one that still does (no operation between creation and use of a handle may move elements). " + V,
          "note": "accessors that dereference buckets are opaque to Verus",
